@@ -27,10 +27,62 @@ GENERIC_TRAITS = [(re.compile(r), t) for r, t in [
 
 
 # ---------------------------------------------------------------------------------------
+# Private helper functions the rules refer to by name, with the signature that identifies their role.  When a name is absent
+# from the tree and exactly one function of the same module has the role's signature, that function is analysed under the
+# role's name (a rename of a private function changes no behaviour and must change no verdict).  (module prefix, name, inputs, output)
+ROLES = [
+    ('backends::rust::', 'write_module', ['&std::path::Path', '&grammar::ItemPath', '&semantic::semantic_state::ResolvedSemanticState', '&semantic::module::Module'], 'std::result::Result<(), anyhow::Error>'),
+    ('backends::rust::', 'build_item', ['&semantic::type_registry::TypeRegistry', '&semantic::types::ItemDefinition'], 'std::result::Result<proc_macro2::TokenStream, anyhow::Error>'),
+    ('backends::rust::', 'build_type', ['&semantic::type_registry::TypeRegistry', '&grammar::ItemPath', 'usize', 'usize', 'semantic::types::Visibility', '&semantic::type_definition::TypeDefinition'], 'std::result::Result<proc_macro2::TokenStream, anyhow::Error>'),
+    ('backends::rust::', 'build_enum', ['&grammar::ItemPath', 'usize', 'semantic::types::Visibility', '&semantic::enum_definition::EnumDefinition'], 'std::result::Result<proc_macro2::TokenStream, anyhow::Error>'),
+    ('backends::rust::', 'build_function', ['&semantic::function::Function'], 'std::result::Result<proc_macro2::TokenStream, anyhow::Error>'),
+    ('backends::rust::', 'build_extern_value', ['&semantic::types::ExternValue'], 'std::result::Result<proc_macro2::TokenStream, anyhow::Error>'),
+    ('backends::rust::', 'str_to_ident', ['&str'], 'proc_macro2::Ident'),
+    ('backends::rust::', 'sa_type_to_syn_type', ['&semantic::types::Type'], 'std::result::Result<syn::Type, anyhow::Error>'),
+    ('backends::rust::', 'visibility_to_tokens', ['semantic::types::Visibility'], 'proc_macro2::TokenStream'),
+    ('backends::rust::', 'doc_to_tokens', ['bool', 'std::option::Option<&str>'], 'proc_macro2::TokenStream'),
+    ('backends::rust::', 'hex_literal', ['impl Into<usize>'], 'proc_macro2::Literal'),
+    ('semantic::type_definition::vftable::', 'convert_grammar_functions_to_semantic_functions', ['&semantic::type_registry::TypeRegistry', '&semantic::module::Module', 'std::option::Option<usize>', '&[grammar::Function]'], 'std::result::Result<std::vec::Vec<semantic::function::Function>, anyhow::Error>'),
+    ('semantic::type_definition::vftable::', 'build_type', ['&semantic::type_registry::TypeRegistry', '&grammar::ItemPath', 'semantic::types::Visibility', '&[semantic::function::Function]'], 'std::option::Option<semantic::types::ItemDefinition>'),
+    ('semantic::type_definition::vftable::', 'function_to_region', ['&grammar::ItemPath', '&semantic::function::Function'], 'semantic::type_definition::Region'),
+    ('semantic::type_definition::vftable::', 'get_optional_region_name_and_vftable', ['&semantic::type_registry::TypeRegistry', '&grammar::ItemPath', 'std::option::Option<&semantic::type_definition::Region>'],
+     'std::result::Result<std::option::Option<(std::string::String, &semantic::type_definition::vftable::TypeVftable)>, anyhow::Error>'),
+    ('util::', 'lcm', ['impl Iterator<Item = usize>'], 'usize'),
+    ('util::', 'gcd', ['usize', 'usize'], 'usize'),
+]
+
+
+def _nolife(t):
+    return re.sub(r"'\w+ ?", '', t)
+
+
+def canonical_names(d):
+    """[(actual id, role id)] for roles whose name is missing and whose signature identifies exactly one function"""
+    ids = {f['id'] for f in d['fns']}
+    taken = {m + n for m, n, _, _ in ROLES}
+    out = []
+    for mod, name, inputs, output in ROLES:
+        if mod + name in ids:
+            continue
+        cands = [f['id'] for f in d['fns'] if f['kind'] != 'Closure' and not f.get('derived') and f['id'].startswith(mod) and '::' not in f['id'][len(mod):]
+                 and [_nolife(t) for t in f.get('inputs', [])] == inputs and _nolife(f.get('output', '')) == output and f['id'] not in taken]
+        if len(cands) == 1:
+            out.append((cands[0], mod + name))
+    return out
+
+
 class Program:
     def __init__(self, path):
         with open(path) as fh:
-            d = json.load(fh)
+            text = fh.read()
+        d = json.loads(text)
+        self.renamed = canonical_names(d)
+        if self.renamed:
+            for actual, role in self.renamed:
+                text = re.sub(r'(?<![\w:])' + re.escape(actual) + r'(?![\w])', role, text)
+                sa, sr = '::'.join(actual.split('::')[-2:]), '::'.join(role.split('::')[-2:])
+                text = re.sub(r'(?<![\w:])' + re.escape(sa) + r'(?![\w])', sr, text)
+            d = json.loads(text)
         self.raw = d
         self.crate = d['crate']
         self.fns = {}
@@ -1149,21 +1201,21 @@ def seq_chain(fn, e):
             src = lb['source']
             if lb['filtered']:
                 src = _call(ITER_FN + 'filter', [src, ('loopcond', lb['push'])])
-            return _call(ITER_FN + 'collect', [_call(ITER_FN + 'map', [src, ('loopbody', lb['elem'])])])
+            return _call(ITER_FN + 'collect', [_call(ITER_FN + 'map', [src, ('loopbody', lb['elem'], lb['push'])])])
     return e
 
 
-def _map_tree(e, fnc):
+def map_tree(e, fnc):
     """rebuild an expression tree bottom-up through fnc (applied to every tuple node after its children)"""
     if not isinstance(e, tuple):
         return e
     out = []
     for x in e:
         if isinstance(x, tuple):
-            out.append(_map_tree(x, fnc))
+            out.append(map_tree(x, fnc))
         elif isinstance(x, list):
-            out.append([(y[0], _map_tree(y[1], fnc)) if (isinstance(y, tuple) and len(y) == 2 and isinstance(y[0], str) and isinstance(y[1], tuple))
-                        else (_map_tree(y, fnc) if isinstance(y, tuple) else y) for y in x])
+            out.append([(y[0], map_tree(y[1], fnc)) if (isinstance(y, tuple) and len(y) == 2 and isinstance(y[0], str) and isinstance(y[1], tuple))
+                        else (map_tree(y, fnc) if isinstance(y, tuple) else y) for y in x])
         else:
             out.append(x)
     return fnc(tuple(out))
@@ -1185,7 +1237,7 @@ def simplify(e):
             if i < len(x[1][2]):
                 return x[1][2][i][1]
         return x
-    return _map_tree(e, one)
+    return map_tree(e, one)
 
 
 def subst_closure(cf, body, params, caps):
@@ -1196,7 +1248,7 @@ def subst_closure(cf, body, params, caps):
         if x and x[0] == 'upvar' and isinstance(x[1], int) and x[1] < len(caps):
             return caps[x[1]]
         return x
-    return _map_tree(body, one)
+    return map_tree(body, one)
 
 
 def split_values(fn, e, limit=24):
@@ -1234,7 +1286,7 @@ def split_values(fn, e, limit=24):
             continue
         _, node, alts = target
         for a in alts:
-            work.append(_map_tree(cur, lambda y, node=node, a=a: a if y == node else y))
+            work.append(map_tree(cur, lambda y, node=node, a=a: a if y == node else y))
         if len(work) + len(done) > limit:
             return done + work
     return done + work
